@@ -5,7 +5,7 @@
    refinement `flatten = inst` is NOT proved (see C07_refines_partial) and is false under shadowing
    (C07_refuted_shadowing). *)
 From Coq Require Import List ZArith Bool PArith.
-From PV Require Import Lib.ClassTree Lib.Inst Model.C07_flatten Proofs.C07_flatten Proofs.C07_refine Proofs.C07_refine_ext Proofs.C07_late.
+From PV Require Import Lib.ClassTree Lib.Inst Model.C07_flatten Proofs.C07_flatten Proofs.C07_refine Proofs.C07_refine_ext Proofs.C07_late Proofs.C07_lex Proofs.C07_refine_pkg.
 Import ListNotations.
 
 (* C07a: a flat name is the instance path: composition prefix ++ [name] is injective, and the
@@ -202,6 +202,59 @@ Proof.
 Qed.
 Print Assumptions C07_refines_extends_example.
 
+(* lex_consistent: in the lexical scope of a located class (a class reachable from the root by a dotted path),
+   a class found by pymoca's lookup — simple or dotted name, found in any enclosing scope — is itself
+   located, comes with EXACTLY the lexical scope of its own lexical parent as .parent chain, and was not
+   found in an instance dictionary.  (This is what makes find_base, which resolves from the root, and the
+   specification, which resolves from the scope the class was found in, agree.) *)
+Theorem C07_lex_consistent (root : list cdef) (d : cdef) (dl ref : path) (c : cdef) (clex : path) (S' : scope) (b : bool) :
+  located root d dl -> lookup (lex_scope root dl) ref = Some (c, clex, S', b) ->
+  located root c clex /\ S' = lex_scope root clex /\ b = false.
+Proof. exact (lookup_located root d dl ref c clex S' b). Qed.
+Print Assumptions C07_lex_consistent.
+
+(* REFINEMENT, stage 2b: extends in libraries structured by PACKAGES.  Classes at any package depth; extends
+   clauses and component types name classes of other packages by simple name (found in an enclosing scope)
+   or dotted name; extends chains of any depth, multiple inheritance.  Side conditions (`pkg_lib`), which
+   exclude exactly the recorded findings that can occur without modifications:
+     - models have no nested class definitions (`eplain`): excludes nested-class-defined-after-user... and
+       modified-alias-component-of-nested-class...;
+     - NO SHADOWING: the type name of every component means the same class in the scope of every class that
+       inherits it (`reach`): excludes inherited-type-resolved-in-deriving-scope;
+     - extends clauses name models, component types name models or aliases (not packages), no clause
+       modifiers, no modifications (so no attribute expression exists: flattened-reference-prefixed-twice
+       cannot occur). *)
+Theorem C07_refines_extends_packages (root : list cdef) (top : path) (r : list fsym * list eqn) :
+  pkg_lib root ->
+  (forall c lex Sp b, lookup (lex_scope root []) top = Some (c, lex, Sp, b) -> eplain c) ->
+  flatten root false top = Ok r ->
+  Forall clean (fst r) /\ PV.Lib.Inst.inst root top = Some (map var_of (fst r), snd r).
+Proof. exact (refines_extends_pkg root top r). Qed.
+Print Assumptions C07_refines_extends_packages.
+
+(* the side conditions are satisfiable (every top-level library of stage 2 satisfies them, e.g. ext_ex below) *)
+Theorem C07_toplevel_is_package_library (root : list cdef) : root_lib root -> pkg_lib root.
+Proof. exact (root_lib_is_pkg_lib root). Qed.
+Print Assumptions C07_toplevel_is_package_library.
+
+(* and the conclusion is not vacuous in a genuine package library:
+   package P  model A Real x; equation x = 1; end A;  model B extends A; Real y; equation y = x; end B;  end P;
+   package Q  model C extends P.B; P.A a; end C;  end Q;   model M extends Q.C; Q.C c; end M; *)
+Definition pkg_ex : list cdef :=
+  [CDef 60 kPackage
+     [CDef 40 kModel [] [] [mkSym 41 [iReal] [] [] []] [(ERef [41] [], ENum 1)];
+      CDef 43 kModel [] [([40], [])] [mkSym 44 [iReal] [] [] []] [(ERef [44] [], ERef [41] [])]] [] [] [];
+   CDef 61 kPackage
+     [CDef 45 kModel [] [([60; 43], [])] [mkSym 46 [60; 40] [] [] []] []] [] [] [];
+   CDef 47 kModel [] [([61; 45], [])] [mkSym 48 [61; 45] [] [] []] []]%positive.
+Example C07_refines_packages_example :
+  exists r, flatten pkg_ex false [47%positive] = Ok r /\
+    map f_name (fst r) = [[41]; [44]; [46; 41]; [48; 41]; [48; 44]; [48; 46; 41]]%positive /\
+    PV.Lib.Inst.inst pkg_ex [47%positive] = Some (map var_of (fst r), snd r) /\
+    flatten pkg_ex true [47%positive] = Ok r.
+Proof. eexists. split; [vm_compute; reflexivity | split; [reflexivity | split; vm_compute; reflexivity]]. Qed.
+Print Assumptions C07_refines_packages_example.
+
 (* flatten_extends_elems (step towards C07_refines_extends): one extends level — any number of extends
    clauses, each resolving (find_base, tree.py:277) to an extends-free class that is not the class itself,
    without clause modifiers.  flatten_extends returns the fold of merge_base over the bases in clause order
@@ -221,11 +274,11 @@ Print Assumptions C07_flatten_extends_elems.
 
 (* PARTIAL.  Proved here: the extends-free step of flatten_extends.  Proved above: C07_refines_flat (nested
    class definitions, no extends) and C07_refines_extends (extends, top-level libraries); NOT proved: extends
-   clauses WITH modifiers and modifications in general (C08_refines).  Missing for
-   extends in libraries WITH nested class definitions / packages: (i) lex_consistent — the parent chain of a
-   class found by lookup is similar to the lexical scope of its lexical parent (find_base resolves from
-   the root, the specification from the scope the class was found in); (ii) lookup_no_shadow — under no_shadowing
-   lookup (me_of deriving ...) t = lookup (class_scope declaring ...) t for every inherited symbol type t;
+   clauses WITH modifiers and modifications in general (C08_refines).  Proved above: extends in
+   package libraries (C07_refines_extends_packages, with C07_lex_consistent and the no-shadowing side
+   condition).  Missing: extends in models that HAVE nested class definitions — there the instance
+   dictionary holds the inherited classes (x_classes = the specification's all_classes, a classes
+   analogue of fe_elems) and the definition-order rule applies;
    (iii) alias of alias and aliases with modifiers in the type definition (attribute lemmas of C08).  Missing for modifications
    (C08_refines): apply_args_leaf — the list build puts on a leaf, applied per scope by modify_symbol,
    equals leaf_attrs (outer ++ decl ++ type-definition entries) after resolution, under the hypotheses
